@@ -67,10 +67,8 @@ func (k Keeper) Stake(
 
 	rewards, rewardDebt := pool.CaclRewards(farmInfo, lpToken.Amount)
 	// reward users
-	if rewards.IsAllPositive() {
-		if err = k.bk.SendCoinsFromModuleToAccount(ctx, types.RewardCollector, sender, rewards); err != nil {
-			return reward, err
-		}
+	if rewards, err = k.payRewards(ctx, sender, rewards); err != nil {
+		return reward, err
 	}
 
 	farmInfo.RewardDebt = rewardDebt
@@ -143,11 +141,9 @@ func (k Keeper) Unstake(ctx sdk.Context, poolId string, lpToken sdk.Coin, sender
 
 	// compute farmer rewards
 	rewards, rewardDebt := pool.CaclRewards(farmInfo, lpToken.Amount.Neg())
-	if rewards.IsAllPositive() {
-		// distribute reward
-		if err = k.bk.SendCoinsFromModuleToAccount(ctx, types.RewardCollector, sender, rewards); err != nil {
-			return nil, err
-		}
+	// distribute reward
+	if rewards, err = k.payRewards(ctx, sender, rewards); err != nil {
+		return nil, err
 	}
 
 	farmInfo.RewardDebt = rewardDebt
@@ -193,14 +189,30 @@ func (k Keeper) Harvest(ctx sdk.Context, poolId string, sender sdk.AccAddress) (
 
 	rewards, rewardDebt := pool.CaclRewards(farmInfo, amtAdded)
 	// reward users
-	if rewards.IsAllPositive() {
-		if err = k.bk.SendCoinsFromModuleToAccount(ctx, types.RewardCollector, sender, rewards); err != nil {
-			return nil, err
-		}
+	if rewards, err = k.payRewards(ctx, sender, rewards); err != nil {
+		return nil, err
 	}
 
 	farmInfo.RewardDebt = rewardDebt
 	k.SetFarmInfo(ctx, farmInfo)
+	return rewards, nil
+}
+
+// payRewards pays a farmer's pending rewards from the reward collector and returns what was paid.
+// Every farmer's share is truncated separately, so the pending rewards of all farmers can add up to a few base units
+// more than the collector holds; the farmer then gets what is left instead of the whole operation failing (a failure
+// here would also block the withdrawal of the staked tokens).
+func (k Keeper) payRewards(ctx sdk.Context, farmer sdk.AccAddress, rewards sdk.Coins) (sdk.Coins, error) {
+	if !rewards.IsAllPositive() {
+		return rewards, nil
+	}
+	collector := k.ak.GetModuleAddress(types.RewardCollector)
+	rewards = rewards.Min(k.bk.SpendableCoins(ctx, collector))
+	if rewards.IsAllPositive() {
+		if err := k.bk.SendCoinsFromModuleToAccount(ctx, types.RewardCollector, farmer, rewards); err != nil {
+			return nil, err
+		}
+	}
 	return rewards, nil
 }
 
